@@ -136,6 +136,33 @@ theorem xir_inverse_flag (tdm : Bool) (n : Nat) (c c' : Cmd)
 
 example : fromXStmt 3 (toXStmt false exS) = .ok exS := by rfl
 
+/- Full statement for XIR (not yet proved in Lean; evaluated against the real code on every run by the
+correspondence pairs `toXIR` / `toProgramXIR` and checked by the oracle):
+  `roundtrip_xir : ExprX p → toProgramXIR (toXIR p) = .ok { p with n := usedModes p }`
+for ordinary and TDM programs (exact equality, including `dagger`), and the TDM Blackbird variant
+  `roundtrip_blackbird_tdm : ExprBBTdm p → ∃ bb, toBB p = .ok bb ∧ toProgramBB (reparseBB bb) = .ok (normBB p)`.
+Missing: the measurement-statement case (keyword parameters `phi/select/dark_counts`) of the XIR command
+lemma, the TDM command lemmas (value lemmas `bb_val_rt_tdm`, `phi_bb_rt_tdm` exist) and the two
+list inductions.  Proved part: -/
+
+/-- **one gate / preparation / channel command through XIR**: for every such command with numeric and
+array parameters (1-D arrays: shape = length), any modes, any inverse flag, `from_xir (to_xir c)` returns
+the command itself — nothing normalised, the `dagger` flag included. -/
+theorem roundtrip_xir_command_partial (n : Nat) (c : Cmd) (hF : c.cls ≠ "Fouriergate") (hkw : c.kw = [])
+    (hm : isMeasure c.cls = false) (hs : c.select = none) (hd : c.dark = none)
+    (hv : ∀ v ∈ c.pars, ValX false 0 v) : fromXStmt n (toXStmt false c) = .ok c :=
+  xir_gate_rt hF hkw hm hs hd hv
+
+def exI : Cmd := { cls := "Interferometer", regs := [3, 1], pars := [.arr [2, 2] [.cpx 0 1, .int 0, .int 0, .cpx 0 1]] }
+
+example : exI.cls ≠ "Fouriergate" ∧ isMeasure exI.cls = false ∧ (∀ v ∈ exI.pars, ValX false 0 v) ∧
+    fromXStmt 4 (toXStmt false exI) = .ok exI := by
+  refine ⟨by decide, by decide, ?_, by rfl⟩
+  intro v hv
+  simp only [exI, List.mem_cons, List.not_mem_nil, or_false] at hv
+  subst hv
+  intro m hm; cases hm
+
 /-- **`_factor_out_pi`**: for every integer `m`, the term `c*np.pi/d` printed for `m·π/12` denotes it
 (`c/d = m/12`, `d > 0`).  (With the truncating `int(p / factor)` of the original code this is false.) -/
 theorem factor_out_pi_denotes (m : Int) :
